@@ -29,6 +29,14 @@ def sane_attrs():
             _termios.B38400, _termios.B38400, list(SANE_CC)]
 
 
+def _sim_oserror(code, msg):
+    """an OSError the simulated kernel raises on purpose (as opposed to one from the real OS, which during a
+    simulated run means an un-seamed system call was made on a simulated descriptor)"""
+    e = OSError(code, msg)
+    e.sim = True
+    return e
+
+
 class Tty:
     kind = "tty"
 
@@ -85,7 +93,7 @@ class Kernel:
             raise TypeError("an integer is required (got type %s)" % type(fd).__name__)
         o = self.fds.get(fd)
         if o is None:
-            raise OSError(errno.EBADF, "Bad file descriptor")
+            raise _sim_oserror(errno.EBADF, "Bad file descriptor")
         return o
 
     def open_fds(self):
@@ -139,7 +147,7 @@ class Kernel:
         self.w.seam("read")
         o = self._get(fd)
         if o.kind == "pw":
-            raise OSError(errno.EBADF, "Bad file descriptor")
+            raise _sim_oserror(errno.EBADF, "Bad file descriptor")
         if o.kind == "tty":
             o.read_count += 1
             flt = self.read_faults.get(fd)
@@ -147,7 +155,7 @@ class Kernel:
             if f is not None and f[0] == "eio":
                 self.w.fault("read_eio")
                 self.w.log.add("read", fd, n, "EIO")
-                raise OSError(errno.EIO, "Input/output error")
+                raise _sim_oserror(errno.EIO, "Input/output error")
             buf = o.inq
         else:
             f = None
@@ -181,14 +189,14 @@ class Kernel:
             if o.kind == "tty":
                 # writing to the tty fd: output side, not modelled through fds
                 raise HarnessError("os.write to the simulated tty is not modelled")
-            raise OSError(errno.EBADF, "Bad file descriptor")
+            raise _sim_oserror(errno.EBADF, "Bad file descriptor")
         data = bytes(data)
         p = o.pipe
         if not p.r_open:
             raise BrokenPipeError(errno.EPIPE, "Broken pipe")
         need = len(data)
         if need > p.cap:
-            raise HarnessError("pipe capacity knob smaller than one write")
+            p.cap = need          # (the capacity knob never makes a single write impossible)
         if p.cap - len(p.buf) < need:
             if o.flags & _os.O_NONBLOCK:
                 self.w.log.add("write", fd, "EAGAIN")
@@ -211,7 +219,7 @@ class Kernel:
             rl.append((x, fd))
         for x, fd in rl:
             if fd not in self.fds:
-                raise OSError(errno.EBADF, "Bad file descriptor")
+                raise _sim_oserror(errno.EBADF, "Bad file descriptor")
         if timeout is not None:
             if not isinstance(timeout, (int, float)):
                 raise TypeError("timeout must be a float or None")
@@ -319,6 +327,17 @@ class Kernel:
         self.tcsetattr(fd, when, new)
         return mode
 
+    def tcflush(self, fd, queue):
+        self.w.seam("tcflush")
+        fd, o = self._tty_of(fd)
+        if queue in (_termios.TCIFLUSH, _termios.TCIOFLUSH):
+            del o.inq[:]
+        self.w.log.add("tcflush", fd, queue)
+
+    def isatty(self, fd):
+        o = self.fds.get(fd)
+        return o is not None and o.kind == "tty"
+
     # ------------------------------------------------------------- environment side
     def arrive(self, fd, data):
         """bytes typed by the user / sent by the terminal arrive on the tty"""
@@ -377,7 +396,7 @@ class Signals:
         if fd != -1:
             o = self.k.fds.get(fd)
             if o is None:
-                raise OSError(errno.EBADF, "Bad file descriptor")
+                raise _sim_oserror(errno.EBADF, "Bad file descriptor")
             if not (o.flags & _os.O_NONBLOCK):
                 raise ValueError("the fd %i must be in non-blocking mode" % fd)
         old = self.wakeup_fd
@@ -481,6 +500,20 @@ class SimOut:
     def flush(self):
         pass
 
+    def writelines(self, lines):
+        for line in lines:
+            self.write(line)
+
+    def isatty(self):
+        return True
+
+    def writable(self):
+        return True
+
+    closed = False
+    encoding = "utf-8"
+    errors = "strict"
+
 
 class SimIn:
     """in_stream: fileno() of the simulated tty and an unbuffered text read(n)."""
@@ -502,6 +535,12 @@ class SimIn:
     def isatty(self):
         return True
 
+    def readable(self):
+        return True
+
+    closed = False
+    errors = "strict"
+
     def read(self, n=1):
         import codecs
         w = self.world
@@ -519,7 +558,7 @@ class SimIn:
             self._err_left -= 1
             w.fault("in_read_oserror")
             w.log.add("in.read", "OSError")
-            raise OSError(errno.EIO, "Input/output error")
+            raise _sim_oserror(errno.EIO, "Input/output error")
         dec = codecs.getincrementaldecoder(self.encoding)("replace")
         out = ""
         while len(out) < n:
